@@ -804,6 +804,84 @@ pub fn gen_c09(rng: &Rng, tier: Tier) -> C09Scn {
         cfg.policy = if rng.chance(1, 2) { PolicySpec::Std } else { PolicySpec::Refuse };
         profile = "kib_all_fit".into();
     }
+    if rng.chance(1, 500) {
+        // a full buffer that ends with: ... small records | one tiny record | a record cut by the
+        // buffer end. A record-set read that starts at the tiny record collects almost nothing
+        // before it has to make room; the cut record fits after moving, so nothing may grow
+        let cap = *rng.pick(&[rng.range(4096, 9000), 20480, 65536, 65536]);
+        let t: &[u8] = if rng.chance(1, 4) { b"\r\n" } else { b"\n" };
+        let rec = |v: &mut Vec<u8>, i: usize, len: usize| match fmt {
+            Fmt::Fasta => {
+                v.extend_from_slice(format!(">s{}", i).as_bytes());
+                v.extend_from_slice(t);
+                if len > 0 {
+                    v.extend(std::iter::repeat(b"ACGT"[i % 4]).take(len));
+                    v.extend_from_slice(t);
+                }
+            }
+            Fmt::Fastq => {
+                v.extend_from_slice(format!("@s{}", i).as_bytes());
+                v.extend_from_slice(t);
+                v.extend(std::iter::repeat(b"ACGT"[i % 4]).take(len));
+                v.extend_from_slice(t);
+                v.push(b'+');
+                v.extend_from_slice(t);
+                v.extend(std::iter::repeat(b'I').take(len));
+                v.extend_from_slice(t);
+            }
+        };
+        let mut v = vec![];
+        let mut i = 0;
+        let cut_len = rng.range(40, 400);
+        // small records up to a little before the buffer end
+        let reserve = rng.range(12, 30);
+        while v.len() + 120 + reserve < cap {
+            rec(&mut v, i, rng.range(0, 40));
+            i += 1;
+        }
+        // pad with one record so that exactly `reserve` bytes (tiny record + start of the cut one) are left
+        let room = cap - v.len() - reserve;
+        let overhead = { let mut w = vec![]; rec(&mut w, i, 1); w.len() - if fmt == Fmt::Fasta { 1 } else { 2 } };
+        if room > overhead {
+            rec(&mut v, i, if fmt == Fmt::Fasta { room - overhead } else { (room - overhead) / 2 });
+            i += 1;
+        }
+        let n_before = i;
+        // the tiny record, then the one that crosses the buffer end
+        match fmt {
+            Fmt::Fasta => {
+                v.extend_from_slice(b">");
+                v.extend_from_slice(t);
+            }
+            Fmt::Fastq => {
+                v.extend_from_slice(b"@");
+                v.extend_from_slice(t);
+                v.extend_from_slice(t);
+                v.push(b'+');
+                v.extend_from_slice(t);
+                v.extend_from_slice(t);
+            }
+        }
+        rec(&mut v, i + 1, cut_len);
+        i += 2;
+        for _ in 0..rng.range(0, 6) {
+            rec(&mut v, i, rng.range(0, 40));
+            i += 1;
+        }
+        input = v;
+        let d = *rng.pick(&[0usize, 0, 0, 1, 3]);
+        ops = (0..n_before.saturating_sub(d)).map(|_| Op::Next).collect();
+        ops.push(Op::ReadSet(0));
+        for _ in 0..8 {
+            ops.push(if rng.chance(1, 3) { Op::ReadSet(0) } else { Op::Next });
+        }
+        cfg.cap = cap;
+        cfg.cuts = vec![];
+        cfg.intr_burst = None;
+        cfg.script = if rng.chance(1, 2) { vec![] } else { vec![rng.range(500, 9000) as u32] };
+        cfg.policy = if rng.chance(1, 2) { PolicySpec::Std } else { PolicySpec::Refuse };
+        profile = "tiny_before_buffer_end".into();
+    }
     if rng.chance(1, 400) {
         // opened by path with an explicit small capacity: the policy must still be the only way to a
         // larger buffer
